@@ -246,7 +246,20 @@ func analyzeMarker(pass *codegen.Pass, markersInspect markers.Markers, typeMarke
 // splitFieldNames returns one single-name copy of the field per declared name (`A, B T`),
 // because validators address a field through its first name only.
 func splitFieldNames(field *ast.Field) []*ast.Field {
-	if len(field.Names) <= 1 {
+	if len(field.Names) == 0 {
+		// An embedded field is addressed by the name of its type.
+		name := embeddedFieldName(field.Type)
+		if name == nil {
+			return nil
+		}
+
+		named := *field
+		named.Names = []*ast.Ident{name}
+
+		return []*ast.Field{&named}
+	}
+
+	if len(field.Names) == 1 {
 		return []*ast.Field{field}
 	}
 
@@ -367,4 +380,23 @@ func writeFile(pass *codegen.Pass, ts *ast.TypeSpec, tmplData TemplateData) erro
 	}
 
 	return nil
+}
+
+// embeddedFieldName returns the identifier through which an embedded field of the given type is selected
+// (T, *T and pkg.T are all selected as T), or nil if the type expression is not a valid embedded type.
+func embeddedFieldName(expr ast.Expr) *ast.Ident {
+	switch t := expr.(type) {
+	case *ast.Ident:
+		return t
+	case *ast.StarExpr:
+		return embeddedFieldName(t.X)
+	case *ast.SelectorExpr:
+		return t.Sel
+	case *ast.IndexExpr:
+		return embeddedFieldName(t.X)
+	case *ast.IndexListExpr:
+		return embeddedFieldName(t.X)
+	default:
+		return nil
+	}
 }
